@@ -269,3 +269,65 @@ func (p *Program) ImportJSON(v any) Value {
 	im := &Importer{P: p, memo: map[memoKey]*Value{}, maps: map[unsafe.Pointer]*OMap{}, Cells: map[unsafe.Pointer]*Value{}}
 	return Iface{T: t, V: im.Import(rv, t)}
 }
+
+// ExportJSON converts an engine JSON-shaped value (as held in an `any`) to a native
+// value. Symbolic nodes are exported as NodeRef markers.
+type NodeRef struct{ N *Node }
+
+func ExportJSON(v Value) any {
+	switch v := v.(type) {
+	case nil:
+		return nil
+	case Iface:
+		if v.T == nil {
+			return nil
+		}
+		switch x := v.V.(type) {
+		case *Node:
+			return NodeRef{x}
+		case NodeInner:
+			return NodeRef{x.N}
+		}
+		return ExportJSON(v.V)
+	case bool, string, float64:
+		return v
+	case int64:
+		return float64(v)
+	case uint64:
+		return float64(v)
+	case []Value:
+		out := make([]any, len(v))
+		for i, e := range v {
+			out[i] = ExportJSON(e)
+		}
+		return out
+	case *OMap:
+		out := map[string]any{}
+		if v != nil {
+			for _, e := range v.entries {
+				k, _ := e.k.(string)
+				out[k] = ExportJSON(e.v)
+			}
+		}
+		return out
+	case *Value:
+		if v == nil {
+			return nil
+		}
+		return ExportJSON(*v)
+	}
+	return fmt.Sprintf("<unexportable %T>", v)
+}
+
+// OverlayEntries lists the entries written into node n on this path.
+func (m *Machine) OverlayEntries(n *Node) (keys []string, vals []Value) {
+	ov := m.Overlay(n)
+	if ov == nil {
+		return nil, nil
+	}
+	for _, k := range ov.Keys {
+		keys = append(keys, k)
+		vals = append(vals, ov.Vals[k])
+	}
+	return
+}
